@@ -1,7 +1,9 @@
 #![allow(clippy::all, non_camel_case_types)]
+pub mod alloc;
 pub mod codec_drv;
 pub mod ctx;
 pub mod exec;
+pub mod gen;
 pub mod pb;
 pub mod prng;
 pub mod refc;
